@@ -260,7 +260,9 @@ func genC02(tier string, r *rng) {
 		if len(phex)%2 == 1 {
 			phex = "0" + phex
 		}
-		q, g, y, x := oddOfBits(r, 160), oddOfBits(r, bits-1), oddOfBits(r, bits-1), oddOfBits(r, 159)
+		// subgroup sizes: the FIPS ones and others (192, 128, 512 bits) — q is not bound to 160/224/256 in the containers
+		qBits := []int{160, 224, 256, 192, 128, 512}[bits%6]
+		q, g, y, x := oddOfBits(r, qBits), oddOfBits(r, bits-1), oddOfBits(r, bits-1), oddOfBits(r, qBits-1)
 		priv := mustMarshal(asn1struct.DSAPrivateKey{Version: 0, P: pp, Q: q, G: g, Pub: y, Priv: x})
 		params := mustMarshal(asn1struct.DSAParameters{P: pp, Q: q, G: g})
 		yDER := mustMarshal(y)
